@@ -45,6 +45,20 @@ type keyMap[K any] struct {
 	to   func(int) K
 	from func(K) int
 	i    atomic.Int64
+	// zeroIsKey: the zero value of K is itself a key of the universe ("zero" variant); the zero key that First / Last
+	// report for an empty map is then told apart by Len
+	zeroIsKey bool
+	isZero    func(K) bool
+}
+
+func (x *keyMap[K]) end(k K, v int) (int, int) {
+	if x.zeroIsKey && x.m.Len() == 0 {
+		if x.isZero(k) {
+			return 0, v
+		}
+		return -1, v
+	}
+	return x.from(k), v
 }
 
 // alias returns one of several copies of the Map value: copies denote the same collection.
@@ -60,8 +74,8 @@ func (x *keyMap[K]) Delete(k int)        { x.alias().Delete(x.to(k)) }
 func (x *keyMap[K]) Get(k int) int       { return x.alias().Get(x.to(k)) }
 func (x *keyMap[K]) Contains(k int) bool { return x.alias().Contains(x.to(k)) }
 func (x *keyMap[K]) Len() int            { return x.alias().Len() }
-func (x *keyMap[K]) First() (int, int)   { k, v := x.alias().First(); return x.from(k), v }
-func (x *keyMap[K]) Last() (int, int)    { k, v := x.alias().Last(); return x.from(k), v }
+func (x *keyMap[K]) First() (int, int)   { k, v := x.alias().First(); return x.end(k, v) }
+func (x *keyMap[K]) Last() (int, int)    { k, v := x.alias().Last(); return x.end(k, v) }
 func (x *keyMap[K]) Shape() any          { return x.m.VerifShape() }
 func bound[K any](b [2]int, to func(int) K) tree.Bound[K] {
 	switch b[0] {
@@ -168,6 +182,19 @@ func NewSMapObs(variant string, n int, cmpCount *int, onCmp func(a, b int)) smap
 		return &keyMap[int]{m: tree.NewMap[int, int](intLess), to: func(k int) int { return 10 * k }, from: func(c int) int { return c / 10 }}
 	case "cmp":
 		return &keyMap[int]{m: tree.NewMapCmp[int, int](intCmp), to: func(k int) int { return 10 * k }, from: func(c int) int { return c / 10 }}
+	case "zero": // keys -n/2 .. n/2: the zero value of the key type is a key, negative keys exist
+		mid := (n + 1) / 2
+		fromInt = func(c int) int { return c + mid }
+		return &keyMap[int]{m: tree.NewMapCmp[int, int](func(a, b int) int {
+			obs(a, b)
+			if a < b {
+				return -7
+			} else if a > b {
+				return 3
+			}
+			return 0
+		}), to: func(k int) int { return k - mid }, from: func(c int) int { return c + mid },
+			zeroIsKey: true, isZero: func(c int) bool { return c == 0 }}
 	case "rev":
 		return &keyMap[int]{m: tree.NewMap[int, int](func(a, b int) bool { obs(a, b); return a > b }),
 			to: func(k int) int { return 10 * (n + 1 - k) }, from: func(c int) int {
